@@ -70,6 +70,11 @@ type zzLeafSnap struct {
 	nblobs   int
 	kv       []types.StateKeyVal
 	manager  types.ServiceID
+	// privileged state
+	designate, registrar types.ServiceID
+	assign               []types.ServiceID
+	queues               [][]types.AuthorizerHash
+	nvalidators          int
 }
 
 func zzSnapCtx(c ResultContext) zzLeafSnap {
@@ -98,6 +103,12 @@ func zzSnapCtx(c ResultContext) zzLeafSnap {
 		s.kv = append(s.kv, types.StateKeyVal{Key: e.Key, Value: append([]byte(nil), e.Value...)})
 	}
 	s.manager = c.PartialState.Bless
+	s.designate, s.registrar = c.PartialState.Designate, c.PartialState.CreateAcct
+	s.assign = append([]types.ServiceID(nil), c.PartialState.Assign...)
+	for _, q := range c.PartialState.Authorizers {
+		s.queues = append(s.queues, append([]types.AuthorizerHash(nil), q...))
+	}
+	s.nvalidators = len(c.PartialState.ValidatorKeys)
 	return s
 }
 
@@ -137,6 +148,24 @@ func (s zzLeafSnap) sameAs(c ResultContext, label string) {
 		}
 	}
 	zzvt.Assert(c.PartialState.Bless == s.manager, label)
+	zzvt.Assert(c.PartialState.Designate == s.designate && c.PartialState.CreateAcct == s.registrar, label)
+	zzvt.Assert(len(c.PartialState.Assign) == len(s.assign) && len(c.PartialState.Authorizers) == len(s.queues) && len(c.PartialState.ValidatorKeys) == s.nvalidators, label)
+	for i := range s.assign {
+		if i < len(c.PartialState.Assign) {
+			zzvt.Assert(c.PartialState.Assign[i] == s.assign[i], label)
+		}
+	}
+	for i, q := range s.queues {
+		if i < len(c.PartialState.Authorizers) {
+			got := c.PartialState.Authorizers[i]
+			zzvt.Assert(len(got) == len(q), label)
+			for j := range q {
+				if j < len(got) {
+					zzvt.Assert(got[j] == q[j], label)
+				}
+			}
+		}
+	}
 }
 
 // zzRichCtx: the caller owns one storage entry, one lookup record of 0..3 slots and one
